@@ -29,7 +29,7 @@ def gen_language(rng, h):
     F = un[0]
     nops = rng.randint(4, 7)
     for i in range(nops):
-        kind = rng.choice(["mono", "mono", "poly", "poly", "constr", "ho", "data", "inst"])
+        kind = rng.choice(["mono", "mono", "poly", "poly", "constr", "ho", "data", "pdata", "inst"])
         if i == 0:
             # every language has one operator of the shape of the property's own example, f : x ** x ** x
             k = rng.choice([2, 3, 3])
@@ -48,6 +48,11 @@ def gen_language(rng, h):
             for p in reversed(params):
                 body = ("o", 3, [p, body])
             ops.append((f"i{i}", (0, body, []), params, res))
+            continue
+        if kind == "pdata":
+            # a polymorphic constant such as nil : L(x): every occurrence is a fresh instance
+            t = ("o", F, [("v", 0)])
+            ops.append((f"d{i}", (1, t, []), [], t))
             continue
         if kind == "data":
             t = rng.choice(base + [("o", F, [rng.choice(base)])])
@@ -145,6 +150,11 @@ def gen_expr(rng, h, ops, target, depth, ninputs, assign=None):
             # and bounds an input that was given without a type)
             leaf = ("in", rng.randrange(ninputs))
             return ("ann", leaf, rng.choice(base)) if rng.random() < 0.25 else leaf
+        if target is not None and target[0] == "o" and target[2] and rng.random() < 0.3:
+            # a compound value is wanted: a (possibly polymorphic) constant with that head operator
+            heads = [o for o in ops if not o[2] and o[3][0] == "o" and o[3][1] == target[1]]
+            if heads:
+                return ("op", rng.choice(heads)[0])
         q = rng.random()
         if q < 0.6:
             t = E.instantiate(rng, h, target, assign) if target is not None else rng.choice(base)
